@@ -86,6 +86,21 @@ def show(t, leaf, top=True):
     return s if top else f"({s})"
 
 
+def show_min(t, leaf, parent=None):
+    """the formula written with only the parentheses the precedence of the language needs (`and` binds tighter than `or`)"""
+    if t[0] == "L":
+        return leaf(t[1])
+    s = f" {t[0]} ".join(show_min(k, leaf, t[0]) for k in t[1:])
+    return f"({s})" if (parent == "and" and t[0] == "or") or parent == t[0] else s
+
+
+def needs_precedence(t):
+    """an `and` group directly below an `or` group: written without parentheses only the precedence tells the grouping"""
+    if t[0] == "L":
+        return False
+    return (t[0] == "or" and any(k[0] == "and" for k in t[1:])) or any(needs_precedence(k) for k in t[1:])
+
+
 def formulas(k, with_repeats=True):
     out = []
     for n in range(1, k + 1):
@@ -125,6 +140,17 @@ def program(t, form):
         if form.startswith("await"):
             return flows + f"flow main\n  await {g}\n  send Marker()\n  match Done()\n"
         return flows + f"flow main\n  when {g}\n    send Marker()\n  match Done()\n"
+    if form.startswith("minimal_parens:"):
+        # the formula written without the parentheses precedence makes superfluous; `bare_flows` = a group of flows as a
+        # statement of its own (no keyword: an implicit await)
+        inner = form.split(":")[1]
+        if inner == "match_events":
+            return f"flow main\n  match {show_min(t, lambda i: f'E{i}()')}\n  send Marker()\n  match Done()\n"
+        if inner == "when_events":
+            return f"flow main\n  when {show_min(t, lambda i: f'E{i}()')}\n    send Marker()\n  match Done()\n"
+        g = show_min(t, lambda i: f"f{i}")
+        stmt = {"await_flows": f"  await {g}\n", "bare_flows": f"  {g}\n", "when_flows": f"  when {g}\n    pass\n"}[inner]
+        return flows + "flow main\n" + stmt + "  send Marker()\n  match Done()\n"
     if form.startswith("body_of_when_or:"):
         # the group statement is a statement of the body of a `when` case whose condition has two alternatives (the
         # body is expanded once per alternative); the case is entered by the event Go before the group's events come
@@ -405,6 +431,11 @@ def tasks(tier):
         for inst in lv_:
             out.append((t, f"await_flows_instant:{inst}", 0))
             out.append((t, f"when_flows_instant:{inst}", 0))
+    # formulas whose grouping is only given by precedence, written without the superfluous parentheses, in every statement form
+    for t in formulas(3 if tier == "quick" else 4):
+        if needs_precedence(t):
+            for inner in ("match_events", "when_events", "await_flows", "bare_flows", "when_flows"):
+                out.append((t, f"minimal_parens:{inner}", 0))
     # the group statement inside the body of a `when` case with a two-alternative condition
     for t in formulas(3 if tier == "quick" else 4):
         out.append((t, "body_of_when_or:match_events", 0))
